@@ -1,4 +1,313 @@
-//! `hostile`: not built yet.
-pub fn run_case(_line: &str) -> String {
-    "unimplemented".to_string()
+//! `hostile`: hostile inputs through the public API, every call under catch_unwind (this crate is built with
+//! overflow checks and debug assertions in both profiles).
+//!
+//! case:  H <sink> <prefix> <dtags> <dcid> <ncalls> { <form> <kind> <arg> <key> <ops> }*     (calls as in bin `wire`)
+//!          sink = nop | spy | bspy:<cap> | udp | budp:<cap> | unix | bunix:<cap> | q<qcap|u>:<sink>
+//!        HS <updates>      SocketStats::update with extreme lengths:  k<written>/<len> | e/<len>   (decimal, up to usize::MAX)
+//!        HQ <qcap|u> <n>   QueuingMetricSink over a NopMetricSink: n emits, the counters, flush, drop
+//!        HW <cap> <ending-hex> <ops>    MultiLineWriter::with_ending over a sink that accepts everything (ops: E<hex> | F)
+//! observation (H):  per call ok | einv | eio | panic | notype, joined by ","  then |F:<ok|err|panic>|D:<ok|panic>
+//!   (F = client.flush(), D = dropping client and sink)
+use crate::util::{catch, unhex};
+use crate::wire::{do_call, parse_arg, parse_form, parse_ops, unhex0};
+use cadence::ext::{MultiLineWriter, SocketStats};
+use cadence::{
+    BufferedSpyMetricSink, BufferedUdpMetricSink, BufferedUnixMetricSink, ErrorKind, MetricSink, NopMetricSink,
+    QueuingMetricSink, SinkStats, SpyMetricSink, StatsdClient, UdpMetricSink, UnixMetricSink,
+};
+use std::net::UdpSocket;
+use std::os::unix::net::UnixDatagram;
+use std::panic::RefUnwindSafe;
+use std::sync::atomic::{AtomicU64, Ordering};
+
+static COUNTER: AtomicU64 = AtomicU64::new(0);
+
+type DynSink = Box<dyn MetricSink + Send + Sync + RefUnwindSafe>;
+
+struct Boxed(DynSink);
+impl MetricSink for Boxed {
+    fn emit(&self, m: &str) -> std::io::Result<usize> {
+        self.0.emit(m)
+    }
+    fn flush(&self) -> std::io::Result<()> {
+        self.0.flush()
+    }
+    fn stats(&self) -> SinkStats {
+        self.0.stats()
+    }
 }
+
+/// keeps the receiving ends alive for the duration of the case
+enum Keep {
+    None,
+    Spy(crossbeam_channel::Receiver<Vec<u8>>),
+    Udp(UdpSocket),
+    Unix(UnixDatagram, std::path::PathBuf),
+}
+
+fn make_sink(spec: &str, keep: &mut Vec<Keep>) -> DynSink {
+    if let Some(rest) = spec.strip_prefix('q') {
+        let (qc, inner) = rest.split_once(':').expect("queuing spec");
+        let inner = Boxed(make_sink(inner, keep));
+        return if qc == "u" {
+            Box::new(QueuingMetricSink::from(inner))
+        } else {
+            Box::new(QueuingMetricSink::with_capacity(inner, qc.parse().unwrap()))
+        };
+    }
+    let (name, cap) = match spec.split_once(':') {
+        Some((n, c)) => (n, Some(c.parse::<usize>().unwrap())),
+        None => (spec, None),
+    };
+    match name {
+        "nop" => Box::new(NopMetricSink),
+        "spy" => {
+            let (rx, s) = SpyMetricSink::new();
+            keep.push(Keep::Spy(rx));
+            Box::new(s)
+        }
+        "bspy" => {
+            let (rx, s) = BufferedSpyMetricSink::with_capacity(None, cap);
+            keep.push(Keep::Spy(rx));
+            Box::new(s)
+        }
+        "udp" | "budp" => {
+            let r = UdpSocket::bind("127.0.0.1:0").expect("bind");
+            r.set_nonblocking(true).unwrap();
+            let addr = r.local_addr().unwrap();
+            let s = UdpSocket::bind("127.0.0.1:0").expect("bind");
+            s.set_nonblocking(true).unwrap();
+            keep.push(Keep::Udp(r));
+            if name == "udp" {
+                Box::new(UdpMetricSink::from(addr, s).expect("sink"))
+            } else {
+                match cap {
+                    Some(c) => Box::new(BufferedUdpMetricSink::with_capacity(addr, s, c).expect("sink")),
+                    None => Box::new(BufferedUdpMetricSink::from(addr, s).expect("sink")),
+                }
+            }
+        }
+        "unix" | "bunix" => {
+            let n = COUNTER.fetch_add(1, Ordering::Relaxed);
+            let base = std::env::var("VERIF_TMP").unwrap_or_else(|_| "/tmp".to_string());
+            let p = std::path::PathBuf::from(format!("{}/cadence-verif-h-{}-{}.sock", base, std::process::id(), n));
+            let _ = std::fs::remove_file(&p);
+            let r = UnixDatagram::bind(&p).expect("bind unix");
+            r.set_nonblocking(true).unwrap();
+            let s = UnixDatagram::unbound().expect("unbound");
+            s.set_nonblocking(true).unwrap();
+            let sink: DynSink = if name == "unix" {
+                Box::new(UnixMetricSink::from(&p, s))
+            } else {
+                match cap {
+                    Some(c) => Box::new(BufferedUnixMetricSink::with_capacity(&p, s, c)),
+                    None => Box::new(BufferedUnixMetricSink::from(&p, s)),
+                }
+            };
+            keep.push(Keep::Unix(r, p));
+            sink
+        }
+        _ => panic!("bad sink spec {}", spec),
+    }
+}
+
+fn drain(keep: &[Keep]) {
+    let mut buf = vec![0u8; 70_000];
+    for k in keep {
+        match k {
+            Keep::Udp(s) => while s.recv(&mut buf).is_ok() {},
+            Keep::Unix(s, _) => while s.recv(&mut buf).is_ok() {},
+            Keep::Spy(rx) => while rx.try_recv().is_ok() {},
+            Keep::None => {}
+        }
+    }
+}
+
+fn run_h(t: &[&str]) -> String {
+    let mut keep = vec![];
+    let sink = match catch(|| {
+        let mut k = vec![];
+        let s = make_sink(t[1], &mut k);
+        (s, k)
+    }) {
+        Ok((s, k)) => {
+            keep = k;
+            s
+        }
+        Err(m) => return format!("ctor-panic:{}", m.replace(['|', ','], " ")),
+    };
+    let prefix = unhex0(t[2]);
+    let handled: std::sync::Arc<std::sync::Mutex<Vec<&'static str>>> = Default::default();
+    let h2 = handled.clone();
+    let built = catch(move || {
+        let mut b = StatsdClient::builder(&prefix, Boxed(sink)).with_error_handler(move |e| {
+            h2.lock().unwrap().push(if e.kind() == ErrorKind::InvalidInput { "einv" } else { "eio" });
+        });
+        if t[3] != "-" {
+            for d in t[3].split(',') {
+                let (h, r) = d.split_at(1);
+                if h == "k" {
+                    let (k, v) = r.split_once(':').expect("dtag");
+                    b = b.with_tag(unhex0(k), unhex0(v));
+                } else {
+                    b = b.with_tag_value(unhex0(r));
+                }
+            }
+        }
+        if t[4] != "~" {
+            b = b.with_container_id(unhex0(t[4]));
+        }
+        b.build()
+    });
+    let client = match built {
+        Ok(c) => c,
+        Err(m) => return format!("ctor-panic:{}", m.replace(['|', ','], " ")),
+    };
+    let n: usize = t[5].parse().unwrap();
+    let mut out = vec![];
+    for i in 0..n {
+        let f = &t[6 + 5 * i..11 + 5 * i];
+        let form = parse_form(f[0]);
+        let arg = parse_arg(f[2]);
+        let key = unhex0(f[3]);
+        let ops = parse_ops(f[4]);
+        handled.lock().unwrap().clear();
+        let r = catch(|| do_call(&client, form, f[1], &arg, &key, &ops));
+        out.push(match r {
+            Ok(Some(s)) => {
+                if s == "unit" {
+                    // the quiet form: the outcome is what the error handler saw
+                    handled.lock().unwrap().first().copied().unwrap_or("ok")
+                } else if s.starts_with("ok:") {
+                    "ok"
+                } else if s == "einv" {
+                    "einv"
+                } else {
+                    "eio"
+                }
+            }
+            Ok(None) => "notype",
+            Err(_) => "panic",
+        });
+        if i % 8 == 7 {
+            drain(&keep);
+        }
+    }
+    let fl = match catch(|| client.flush()) {
+        Ok(Ok(())) => "ok",
+        Ok(Err(_)) => "err",
+        Err(_) => "panic",
+    };
+    drain(&keep);
+    let dr = match catch(move || drop(client)) {
+        Ok(()) => "ok",
+        Err(_) => "panic",
+    };
+    std::thread::sleep(std::time::Duration::from_millis(if t[1].starts_with('q') { 5 } else { 0 }));
+    drain(&keep);
+    for k in &keep {
+        if let Keep::Unix(_, p) = k {
+            let _ = std::fs::remove_file(p);
+        }
+    }
+    format!("{}|F:{}|D:{}", out.join(","), fl, dr)
+}
+
+struct Swallow;
+impl std::io::Write for Swallow {
+    fn write(&mut self, b: &[u8]) -> std::io::Result<usize> {
+        Ok(b.len())
+    }
+    fn flush(&mut self) -> std::io::Result<()> {
+        Ok(())
+    }
+}
+
+pub fn run_case(line: &str) -> String {
+    let t: Vec<&str> = line.split_whitespace().collect();
+    match t[0] {
+        "H" => run_h(&t),
+        "HS" => {
+            let stats = SocketStats::default();
+            let mut res = vec![];
+            for u in t[1].split(',') {
+                let (r, len) = u.split_once('/').unwrap();
+                let len: usize = len.parse().unwrap();
+                let arg: std::io::Result<usize> = match r.strip_prefix('k') {
+                    Some(w) => Ok(w.parse().unwrap()),
+                    None => Err(std::io::Error::from(std::io::ErrorKind::Other)),
+                };
+                res.push(match catch(|| stats.update(arg, len)) {
+                    Ok(Ok(_)) => "ok",
+                    Ok(Err(_)) => "eio",
+                    Err(_) => "panic",
+                });
+            }
+            let got: SinkStats = (&stats).into();
+            format!(
+                "{}|S:{}.{}.{}.{}",
+                res.join(","),
+                got.bytes_sent,
+                got.packets_sent,
+                got.bytes_dropped,
+                got.packets_dropped
+            )
+        }
+        "HQ" => {
+            let n: usize = t[2].parse().unwrap();
+            let r = catch(|| {
+                let q = if t[1] == "u" {
+                    QueuingMetricSink::from(NopMetricSink)
+                } else {
+                    QueuingMetricSink::with_capacity(NopMetricSink, t[1].parse().unwrap())
+                };
+                let mut ok = 0;
+                for i in 0..n {
+                    if q.emit(&format!("m{}:1|c", i)).is_ok() {
+                        ok += 1;
+                    }
+                    let _ = q.queued();
+                }
+                let fl = q.flush().is_ok();
+                let c = q.clone();
+                drop(q);
+                let _ = c.emit("last:1|c");
+                let _ = (c.submitted(), c.drained(), c.queued(), c.panics());
+                drop(c);
+                (ok, fl)
+            });
+            match r {
+                Ok((ok, fl)) => format!("ok:{}|F:{}", if ok <= n { "le" } else { "gt" }, fl),
+                Err(_) => "panic".to_string(),
+            }
+        }
+        "HW" => {
+            let cap: usize = t[1].parse().unwrap();
+            let ending = String::from_utf8(unhex(t[2])).expect("utf8");
+            let r = catch(|| {
+                let mut w = MultiLineWriter::with_ending(Swallow, cap, &ending);
+                let mut res = vec![];
+                if t[3] != "-" {
+                    for op in t[3].split(',') {
+                        use std::io::Write;
+                        if op == "F" {
+                            res.push(if w.flush().is_ok() { "ok" } else { "eio" });
+                        } else {
+                            res.push(if w.write(&unhex(&op[1..])).is_ok() { "ok" } else { "eio" });
+                        }
+                    }
+                }
+                drop(w);
+                res.join(",")
+            });
+            match r {
+                Ok(s) => s,
+                Err(_) => "panic".to_string(),
+            }
+        }
+        _ => panic!("bad hostile case"),
+    }
+}
+
+#[allow(dead_code)]
+fn _unused(_: ErrorKind) {}
